@@ -289,3 +289,32 @@ Proof.
   repeat match goal with X : _ && _ = true |- _ => apply andb_true_iff in X as [X ?] end.
   repeat match goal with X : str_eqb _ _ = true |- _ => apply str_eqb_eq in X end. split; congruence.
 Qed.
+
+(* ---------- the manager's seed: str(random_seed) ++ str(additional_seed), finding F-O ---------- *)
+Definition optstr (a : option str) : str := match a with Some x => x | None => [] end.
+
+Lemma manager_seed_app r a : manager_seed r a = r ++ optstr a.
+Proof. destruct a; simpl; [reflexivity | now rewrite app_nil_r]. Qed.
+
+Lemma app_same_length_inj {A} (x x' y y' : list A) : length x = length x' -> x ++ y = x' ++ y' -> x = x' /\ y = y'.
+Proof.
+  revert x'. induction x as [|a x IH]; intros [|a' x'] L E; simpl in *; try discriminate.
+  - now split.
+  - injection L as L. injection E as -> E. destruct (IH x' L E) as [-> ->]. now split.
+Qed.
+
+(* the concatenation is injective exactly on configurations whose random seeds have equally long decimal strings:
+   the guard that excludes the class of finding F-O ((1, 23) vs (12, 3)) *)
+Lemma manager_seed_injective_guarded r1 a1 r2 a2 : length r1 = length r2 ->
+  manager_seed r1 a1 = manager_seed r2 a2 -> r1 = r2 /\ optstr a1 = optstr a2.
+Proof. rewrite !manager_seed_app. apply app_same_length_inj. Qed.
+
+(* conversely, two different random seeds alias only if one string is a proper prefix of the other *)
+Lemma manager_seed_alias_prefix r1 a1 r2 a2 : manager_seed r1 a1 = manager_seed r2 a2 -> (length r1 <= length r2)%nat ->
+  exists t, r2 = r1 ++ t /\ optstr a1 = t ++ optstr a2.
+Proof.
+  rewrite !manager_seed_app. revert r2. induction r1 as [|c r1 IH]; intros r2 E L; simpl in *.
+  - exists r2. split; [reflexivity | assumption].
+  - destruct r2 as [|c' r2]; simpl in *; [lia|]. injection E as -> E.
+    destruct (IH r2 E ltac:(lia)) as [t [-> Ht]]. exists t. split; [reflexivity | assumption].
+Qed.
